@@ -183,7 +183,7 @@ class SIInputs:
         2 pi x flux / Phi_0 (uniform fields)."""
         scn = sim.scn
         f = scn["drive"]["field"]
-        if f["kind"] not in ("const", "const_param") or h.fixed is None or "applied_vector_potential" not in h.fixed:
+        if f["kind"] not in ("const", "const_param", "plain") or h.fixed is None or "applied_vector_potential" not in h.fixed:
             return []
         c = get_ctx(sim)
         rm = c.rm
